@@ -106,8 +106,10 @@ def ops_unit(tier):
     shapes = [(2, 3, 6)] if tier == 'quick' else [(2, 3, 6), (3, 3, 6), (3, 2, 6)]
     ents = []
     hs = (['h_matmat'] if tier == 'thorough' else []) + ['h_conjugate', 'h_get', 'h_set', 'h_set_twice', 'h_sum_duplicates', 'h_from_coo', 'h_transpose', 'h_diagonal', 'h_scale', 'h_binop']
-    for nr, nc, nnz in shapes:
+    for si, (nr, nc, nnz) in enumerate(shapes):
         for h in hs:
+            if h == 'h_matmat' and si > 0:
+                continue          # fixed small shape: once
             cap = 9
             r, c, z = nr, nc, nnz
             if tier == 'quick' and h == 'h_binop':
